@@ -943,6 +943,11 @@ static void vbi_proxy_stop_acquisition( PROXY_DEV * p_proxy_dev )
       p_proxy_dev->p_decoder = NULL;
       p_proxy_dev->vbi_fd = -1;
 
+      /* no client may keep a pointer into the queues freed below: the
+      ** acquisition thread may have queued another frame for the client
+      ** whose service request stops the acquisition */
+      vbi_proxy_queue_release_all(p_proxy_dev - proxy.dev);
+
       vbi_proxy_queue_free_all(&p_proxy_dev->p_free);
       vbi_proxy_queue_free_all(&p_proxy_dev->p_sliced);
    }
